@@ -20,8 +20,10 @@ import (
 
 func init() {
 	register(&Property{
-		ID:  "C18",
-		Gen: genC18,
+		ID:    "C18",
+		Files: []string{"network/simpleHTTP.go"},
+		Funcs: []string{"SimpleHTTPDef", "NewSimpleHTTP"},
+		Gen:   genC18,
 		Rule: "histories over {AddInterceptor(i...), RemoveInterceptor(i...), ClearInterceptor, SetHTTPClient(c_k), request of verb in {Get, Head, Options, Delete, Post, Put, Patch, via SimpleAPI}} with 0..6 interceptor objects (duplicates allowed) " +
 			"and 1..3 clients (one with a nil Transport: http.DefaultTransport is swapped for the stub during the run); at every request point the request is issued once without a fault and once per position of a failing interceptor (enumerated); " +
 			"oracle: list model of registrations; per request the call log is the model list in order, each once, then the transport once; interceptor header changes reach the transport; a failing interceptor aborts the rest and its error surfaces; " +
@@ -189,6 +191,17 @@ func (sc *c18Scenario) Run(s *simrt.Sim) {
 		model = append(model, i)
 	}
 	sh := network.NewSimpleHTTPWithClientAndInterceptors(clients[0], initial...)
+	if len(sc.Initial) == 0 && !sc.Twin && sc.NIcs%2 == 0 {
+		// the plain constructor: own http.Client, handed the first client afterwards
+		sh = network.NewSimpleHTTP()
+		if sh.GetHTTPClient() == nil {
+			sc.extra = append(sc.extra, Violation{Clause: "api-smoke", Fingerprint: "NewSimpleHTTP-without-client", Detail: "NewSimpleHTTP().GetHTTPClient() is nil"})
+		}
+		sh.SetHTTPClient(clients[0])
+	}
+	if sh.GetHTTPClient() != clients[0] {
+		sc.extra = append(sc.extra, Violation{Clause: "api-smoke", Fingerprint: "GetHTTPClient", Detail: "GetHTTPClient() is not the client that was set"})
+	}
 	api := network.NewSimpleAPIWithSimpleHTTP("http://c18.example.test", sh)
 	shs := []*network.SimpleHTTPDef{sh}
 	apis := []*network.SimpleAPIDef{api}
